@@ -307,54 +307,71 @@ func TestVerifC04ConcurrentRouteUpdates(t *testing.T) {
 		}
 		return
 	}
-	bound := vreport.Pick(2, 3)
-	maxExecs := vreport.Pick(20000, 400000) // deterministic cap per case
+	maxExecs := vreport.Pick(20000, 200000) // deterministic cap per case
 	alpha := c04CUAlphabet()
 	reqs := c04CURequests()
-	// replace program: observable (old, new, request, API) combinations
-	oldLists := c04CULists(alpha, vreport.Pick(2, 1), vreport.Pick(2, 3))
-	newLists := c04CULists(alpha, vreport.Pick(2, 1), vreport.Pick(2, 2))
-	var cases []c04CUCase
-	nObs := 0
-	for _, o := range oldLists {
-		for _, n := range newLists {
-			for _, q := range reqs {
-				for _, all := range []bool{false, true} {
-					c := c04CUCase{Program: "replace", Old: o, New: n, Readers: []c04CUReader{{q, all}}, Bound: bound}
-					if !c04CUObservable(c, q, all) {
-						continue
+	// observable (old, new, request, API) combinations of the replace program
+	observable := func(oldMin, oldMax, newMin, newMax int) (out []c04CUCase) {
+		for _, o := range c04CULists(alpha, oldMin, oldMax) {
+			for _, n := range c04CULists(alpha, newMin, newMax) {
+				for _, q := range reqs {
+					for _, all := range []bool{false, true} {
+						c := c04CUCase{Program: "replace", Old: o, New: n, Readers: []c04CUReader{{q, all}}, Bound: 2}
+						if c04CUObservable(c, q, all) {
+							out = append(out, c)
+						}
 					}
-					nObs++
-					// quick: every 3rd observable combination (deterministic stride), all of them in thorough
-					if !vreport.Thorough() && nObs%3 != 0 {
-						continue
-					}
-					cases = append(cases, c)
 				}
 			}
 		}
+		return
 	}
-	nReplace := len(cases)
-	// two lookup threads (MatchRoute + MatchAllRoutes of the same request) on a stride of the above
-	stride := vreport.Pick(16, 6)
-	for i := 0; i < nReplace; i += stride {
-		c := cases[i]
+	strided := func(in []c04CUCase, stride, bound int) (out []c04CUCase) {
+		for i := stride - 1; i < len(in); i += stride {
+			c := in[i]
+			c.Bound = bound
+			out = append(out, c)
+		}
+		return
+	}
+	obs22 := observable(2, 2, 2, 2)
+	var cases []c04CUCase
+	var sets []string
+	add := func(what string, cs []c04CUCase) {
+		sets = append(sets, fmt.Sprintf("%s: %d cases", what, len(cs)))
+		cases = append(cases, cs...)
+	}
+	if !vreport.Thorough() {
+		add(fmt.Sprintf("replace program, old and new list of length 2, every 3rd of the %d observable combinations, <=2 preemptions", len(obs22)), strided(obs22, 3, 2))
+	} else {
+		add(fmt.Sprintf("replace program, old and new list of length 2, all %d observable combinations, <=2 preemptions", len(obs22)), strided(obs22, 1, 2))
+		add("the same, every 3rd combination, <=3 preemptions", strided(obs22, 3, 3))
+		obsLong := observable(3, 3, 1, 2)
+		add(fmt.Sprintf("replace program, old list of length 3, new list of length 1..2, every 5th of the %d observable combinations, <=2 preemptions", len(obsLong)), strided(obsLong, 5, 2))
+		obsShort := observable(1, 2, 1, 1)
+		add(fmt.Sprintf("replace program, old list of length 1..2, new list of length 1, all %d observable combinations, <=2 preemptions", len(obsShort)), strided(obsShort, 1, 2))
+	}
+	// two lookup threads (MatchRoute + MatchAllRoutes of the same request)
+	var two []c04CUCase
+	for _, c := range strided(obs22, vreport.Pick(48, 12), 2) {
 		c.Readers = []c04CUReader{{c.Readers[0].Req, false}, {c.Readers[0].Req, true}}
-		cases = append(cases, c)
+		two = append(two, c)
 	}
-	nTwo := len(cases) - nReplace
-	// append / swap programs: every pair over a sub-alphabet, lists of length 1..2
+	add("replace program with two lookup threads (MatchRoute and MatchAllRoutes of one request), <=2 preemptions", two)
+	// append / swap programs: every pair over a sub-alphabet
 	sub := []c04Rule{alpha[0], alpha[2], alpha[3]}
 	subLists := c04CULists(sub, 1, vreport.Pick(1, 2))
+	var other []c04CUCase
 	for _, prog := range []string{"append", "swap"} {
 		for _, o := range subLists {
 			for _, n := range subLists {
 				for _, all := range []bool{false, true} {
-					cases = append(cases, c04CUCase{Program: prog, Old: o, New: n, Readers: []c04CUReader{{reqs[0], all}}, Bound: bound})
+					other = append(other, c04CUCase{Program: prog, Old: o, New: n, Readers: []c04CUReader{{reqs[0], all}}, Bound: vreport.Pick(2, 3)})
 				}
 			}
 		}
 	}
+	add(fmt.Sprintf("append (AddRoute per new rule) and swap (AddOrUpdateRouters) programs, every pair of lists of length 1..%d over 3 rules x {MatchRoute, MatchAllRoutes}, <=%d preemptions", vreport.Pick(1, 2), vreport.Pick(2, 3)), other)
 	complete := true
 	for _, c := range cases {
 		if p.Expired() {
@@ -370,8 +387,8 @@ func TestVerifC04ConcurrentRouteUpdates(t *testing.T) {
 		names = append(names, r.String())
 	}
 	p.End(complete,
-		fmt.Sprintf("fresh RouterManager, router {a.com, *}; updater thread x 1-2 lookup threads (GetRouters + MatchRoute|MatchAllRoutes on a.com); %d cases: replace program (RemoveAllRoutes + AddRoute per new rule) on %d of %d observable (old list, new list, request, API) combinations over rules [%s], old lists of length %d..%d, new lists of length %d..%d, 3 requests, of which %d also with two lookup threads; append (AddRoute per new rule) and swap (AddOrUpdateRouters) programs on every pair of lists of length 1..%d over 3 rules x {MatchRoute, MatchAllRoutes}; every schedule with <=%d preemptions at the lock operations of pkg/router and at the header map's Get (inside every rule evaluation); at most %d executions per case",
-			len(cases), nReplace, nObs, strings.Join(names, " | "), vreport.Pick(2, 1), vreport.Pick(2, 3), vreport.Pick(2, 1), vreport.Pick(2, 2), nTwo, vreport.Pick(1, 2), bound, maxExecs),
+		fmt.Sprintf("fresh RouterManager, router {a.com, *}; updater thread x 1-2 lookup threads (GetRouters + MatchRoute|MatchAllRoutes on a.com); rules [%s], 3 requests; %d cases = %s; every schedule within the preemption bound at the lock operations of pkg/router and at the header map's Get (inside every rule evaluation); at most %d executions per case",
+			strings.Join(names, " | "), len(cases), strings.Join(sets, "; "), maxExecs),
 		"stateless DFS over schedules; a lookup that started when d update operations were complete and ended when s had started must return the reference answer of one of the configurations d..s (configuration k = list after k operations), MatchAllRoutes that configuration's ordered match list; the lookup after all threads the reference of the final configuration; observable = some position-wise mixture of old and new list answers the request differently from every configuration of the program; distinct = (case, observed results); outcome = (program, which configuration index the answer is consistent with)")
 }
 
